@@ -1,9 +1,14 @@
+#[cfg(not(torrent_bootstrap_verif))]
 use std::{
     fs::{self},
     path::PathBuf,
     sync::Arc,
     time::Instant,
 };
+#[cfg(torrent_bootstrap_verif)]
+use std::{path::PathBuf, sync::Arc, time::Instant};
+#[cfg(torrent_bootstrap_verif)]
+use crate::verif::fs::{self};
 
 use crate::{
     finder::{
@@ -88,6 +93,9 @@ pub fn start(mut options: OrchestratorOptions) -> Result<(), std::io::Error> {
     // Start processing the work
     println!("Solver started at {} seconds.", now.elapsed().as_secs());
 
+    #[cfg(torrent_bootstrap_verif)]
+    crate::verif::probe::work(&work);
+
     let solver = PieceSolver::new(writer, work.len(), &work);   
     run(work, solver, options.threads);
 
@@ -114,6 +122,9 @@ fn setup_metadata(torrents: &[Torrent], export_directory: &PathBuf, scan_directo
     }
 
     populate_metadata_searches(&mut metadata, &file_cache);
+
+    #[cfg(torrent_bootstrap_verif)]
+    crate::finder::verif_record_index(&file_cache, &metadata);
 
     Ok(metadata)
 }
